@@ -28,6 +28,18 @@ def isCanaryUnpaused (ann : SMap) : Bool := SMap.get? ann K.canaryUnpausedAnnot 
 def isCanaryValid (ann : SMap) (rsName : String) : Bool :=
   SMap.get? ann K.canaryValidAnnot == some rsName
 
+/-- `LastUpdateTime` of the PodRestarting condition, or the zero time. -/
+def lastRestartTime (rs : ERS) : Time :=
+  match findCond rs.status.conds "PodRestarting" with
+  | some rc => rc.lastUpdate
+  | none => zeroTime
+
+/-- `pendingNoRestartDuration` of `IsCanaryDeploymentEnded`. -/
+def pendingNoRestart (c : Canary) (d : Dur) (rs : ERS) (now : Time) : Dur :=
+  match c.noRestartsDuration with
+  | some nr => if !isZeroTime (lastRestartTime rs) then lastRestartTime rs + nr - now else -d
+  | none => -d
+
 /-- `IsCanaryDeploymentEnded(specCanary, rs, now)` → (ended, pendingDuration). -/
 def isCanaryEnded (canary : Option Canary) (rs : ERS) (now : Time) : Bool × Dur :=
   match canary with
@@ -36,16 +48,9 @@ def isCanaryEnded (canary : Option Canary) (rs : ERS) (now : Time) : Bool × Dur
     match c.duration with
     | none => (false, 0)
     | some d =>
-      let lastRestart : Time :=
-        match findCond rs.status.conds "PodRestarting" with
-        | some rc => rc.lastUpdate
-        | none => zeroTime
-      let pendingNoRestart : Dur :=
-        match c.noRestartsDuration with
-        | some nr => if !lastRestart.isZero then lastRestart + nr - now else -d
-        | none => -d
+      let pnr := pendingNoRestart c d rs now
       let pending : Dur := rs.creation + d - now
-      let pending := if pendingNoRestart > pending then pendingNoRestart else pending
+      let pending := if pnr > pending then pnr else pending
       if pending >= 0 then (false, pending) else (true, pending)
 
 end Eds
